@@ -154,3 +154,20 @@ Proof.
   destruct (bytes_eqb (H (w_data w ++ data)) hash) eqn:Eh; cbn; [|discriminate].
   intros _. apply bytes_eqb_eq in Eh. split; [exact Eh|lia].
 Qed.
+
+(* ------------------------------------------------------------------ memory-only node: serve once, then "not available" *)
+Theorem memory_only_serves_once store completed q h :
+  q_blob q = Some (BqHash h) ->
+  let store' := snd (mem_handle_request store completed q) in
+  store' h = None /\
+  forall q', q_blob q' = Some (BqHash h) ->
+    forall o, In o (handle_request store' completed q') ->
+      match o with SHeader hd => h_incoming hd = None | SBlob _ => False | _ => True end.
+Proof.
+  intros Hq store'. unfold store', mem_handle_request. rewrite Hq. cbn [snd].
+  assert (Hf : forget store h h = None) by (unfold forget; rewrite bytes_eqb_refl; reflexivity).
+  split; [exact Hf|].
+  intros q' Hq' o Hin. unfold handle_request in Hin. rewrite Hq', Hf in Hin.
+  destruct (q_addr q' || _ || q_price q'); [|contradiction].
+  destruct Hin as [<-|[]]. reflexivity.
+Qed.
